@@ -3,6 +3,7 @@ import ActixModel.Proofs.H1Conn
 import ActixModel.Proofs.H1Framing
 import ActixModel.Proofs.H1ChunkedSound
 import ActixModel.Proofs.H1Pipeline
+import ActixModel.Proofs.H1ConnSeg
 /-
 C01 — HTTP/1 request framing is unambiguous and independent of TCP segmentation.
 
@@ -421,13 +422,11 @@ theorem witness_empty_chunk_size_rejected :
 
 /-! ## nothing after a reject (connection level)
 
-Not claimed at connection level: "the set of requests *served* is the same for every
-segmentation".  That statement is false of the current dispatcher when the bytes completing a
-body-carrying request are read together with a later request whose body is still incomplete
-(DESIGN §6 F1c: `send_response` consults the payload slot of the later request and closes;
-replay in docs/C01.md, O-C).  It is a defect of the dispatcher's pipelining logic (model B,
-properties C02/C03), outside `Model/H1Conn.lean`, whose events are single reads each followed by
-one complete `poll_request` + response cycle.  What *is* proved for every event history is the
+The connection model's events are single reads, each followed by one complete
+`poll_request` + response cycle; the dispatcher's queue of pipelined messages is not part of it
+(model B, properties C02/C03).  The correspondence shows that, with the F1c repair (`4ad0000`),
+the implementation agrees with this model on every read schedule.
+What *is* proved for every event history is the
 property's last clause: -/
 
 /-- **C01_nothing_after_reject.**  For every history of reads and EOFs: once the decode loop has
@@ -444,6 +443,24 @@ theorem C01_nothing_after_reject (before after : List ConnEv) (e : ParseErr)
   obtain ⟨h1, h2⟩ := hinv e hrej
   refine ⟨h1, h2, ?_, connRun_frozen after _ (by simp [hrej]) hinv⟩
   cases e <;> simp [statusOf]
+
+/-- **C01_conn_segmentation.**  At connection level: for every way of cutting a stream (shorter
+than the head-size limit) into reads, followed by any further events (EOF, more reads), the
+requests handed to the service with their exact body bytes and completion state, the statuses
+written, the closed flag and the decoder state are those of a single read of the whole stream. -/
+theorem C01_conn_segmentation (segs : List Bytes) (tail : List ConnEv)
+    (hlen : segs.flatten.length < Consts.h1MaxBufferSize) :
+    connRun {} (segs.map ConnEv.read ++ tail) = connRun {} (ConnEv.read segs.flatten :: tail) := by
+  have h1 := connRun_reads segs {} rfl rfl
+  have h2 := connRun_reads [segs.flatten] {} rfl rfl
+  obtain ⟨e1, e2⟩ := C01_codec_segmentation_small segs hlen
+  have e0 : ({} : Conn).feed = ({} : Feed) := rfl
+  rw [e0] at h1 h2
+  rw [e1, e2] at h1
+  have : connRun {} (segs.map ConnEv.read) = connRun {} [ConnEv.read segs.flatten] := by
+    rw [h1]; exact h2.symm
+  simp only [connRun, List.foldl_append, List.foldl_cons, List.foldl_nil] at this ⊢
+  rw [this]
 
 /-- a history that does end in a reject: `GET / HTTP/1.1` with `Content-Length` and
 `Transfer-Encoding` -/
